@@ -142,21 +142,43 @@ def mapperOf (tables : List W.TableDef) (mode : String) : Bytes → Bytes → Op
       let cols := if mode == s!"more@{idx}" then cols ++ [([120], false)] else if mode == s!"less@{idx}" then cols.dropLast else cols
       some { db := db, table := nm, columns := cols }
 
+/-- `bias=N` (large-offset histories): every offset beyond the head FORMAT_DESCRIPTION event of a file is moved up
+    by N, as if N more bytes of earlier events lay between the file head and the first served unit. An event's bytes
+    depend on its place only through the header's next_position field (and the checksum, which the replica does not
+    verify), so the relocated stream is what a master would serve for the same units at the higher offsets. -/
+def relocOff (fnext N o : Nat) : Nat := if o ≤ fnext then o else o + N
+def unrelocOff (fnext N o : Nat) : Nat := if o ≤ fnext then o else o - N
+def relocPacket (fnext N : Nat) (b : Bytes) : Bytes :=
+  if b.length < 19 then b else
+  let np := Bytes.le ((b.drop 13).take 4)
+  if np == 0 then b else b.take 13 ++ Bytes.ofLE 4 (relocOff fnext N np) ++ b.drop 17
+/-- the artificial ROTATE that opens a dump carries the requested offset in its body -/
+def relocFirst (fnext N : Nat) (b : Bytes) : Bytes :=
+  if b.length < 27 || b.getD 4 0 != 4 then b else
+  b.take 19 ++ Bytes.ofLE 8 (relocOff fnext N (Bytes.le ((b.drop 19).take 8))) ++ b.drop 27
+
 def handleHist (a : Args) : String :=
   let cfg := parseCfg (arg a "cfg")
   let tables := (splitNE (arg a "tables") ";").map parseTable
   let h : W.History := (splitNE (arg a "units") ";").map (parseUnit tables)
-  let p := parsePos (arg a "p")
+  let bias := argNat a "bias"
+  let fnext := (W.fdeEvent cfg 4 none).2
+  let rl := relocOff fnext bias
+  let pB := parsePos (arg a "p")                      -- as the replica names it (relocated)
+  let p : W.Pos := ⟨pB.file, unrelocOff fnext bias pB.offset⟩
   let E := extOf a
   let localCivil : Nat → Bytes := look [] (parseAssoc (arg a "civil"))
   let txt : Nat → W.CellVal → Bytes := fun md v => W.text md localCivil E.fmtFloat32 E.fmtFloat64 v
   let packets := W.serve cfg h p
+  let packets := if bias == 0 then packets else match packets with
+    | f :: rest => relocFirst fnext bias f :: rest.map (relocPacket fnext bias)
+    | [] => []
   -- packets the harness wants injected / replaced: inject=<index>:<hex>
   let packets := match (arg a "inject").splitOn ":" with
     | [i, b] => packets.take (n i) ++ [hb b] ++ packets.drop (n i)
     | _ => packets
   let packets := if hasArg a "cut" then packets.take (argNat a "cut") else packets
-  let exp := W.expected cfg h p
+  let exp := (W.expected cfg h p).map fun t => { t with now := ⟨t.now.file, rl t.now.offset⟩, next := ⟨t.next.file, rl t.next.offset⟩ }
   let failAt := if hasArg a "failat" then some (argNat a "failat") else none
   let failKey : Option W.Pos := match failAt with | some j => (exp[j]?).map (·.next) | none => none
   let handler : Transaction → Bool := fun tx =>
@@ -164,7 +186,7 @@ def handleHist (a : Args) : String :=
     | some k => !(tx.next.file == k.file && tx.next.offset == (k.offset : Int))
     | none => true
   let env : Env := { ext := E, mapper := mapperOf tables (arg a "mapper") }
-  let st := PState.init ⟨p.file, p.offset⟩
+  let st := PState.init ⟨pB.file, pB.offset⟩
   let inputs := packets.map Input.event ++ [if arg a "end" == "cancel" then Input.cancelled else Input.closed]
   let o := parseEvents env handler st inputs
   let cls := if o.crash then "crash" else if o.err then "err" else "nil"
@@ -178,8 +200,9 @@ def handleHist (a : Args) : String :=
       | .deliver _ acc => 'd' :: verdicts acc bs
       | .stop _ _ => ['x']
   let vd := String.ofList (verdicts st packets)
-  let bnd := String.intercalate "," ((W.boundaries cfg h).map fun b => showPos b.file b.offset)
-  let ep := W.endPos cfg h p
+  let bnd := String.intercalate "," ((W.boundaries cfg h).map fun b => showPos b.file (rl b.offset))
+  let ep0 := W.endPos cfg h p
+  let ep : W.Pos := ⟨ep0.file, rl ep0.offset⟩
   s!"packets={String.intercalate "," (packets.map toHex)} model={model} spec={spec} endpos={showPos ep.file ep.offset} boundaries={bnd} vd={vd}"
 
 end GV.D
